@@ -159,6 +159,12 @@ def table(env, row):
         _accept(env, 'hessenbergize(1x1)', R.hessenberg.hessenbergize, [env.qarr('g', (1, 1))])
         _accept(env, 'eigendecomposition(1x1 Hermitian)', R.eigen.quaternion_eigendecomposition, [env.qherm('h', 1)])
     elif row == 'hermitian_only':
+        w, x = env.real('o_w'), env.real('o_x')
+        env.assume(x * x >= (Fraction(1, 10 ** 6) if env.symbolic else 1e-6) * (1 + w * w), '1x1 entry non-real by a margin')
+        one = cm.qmat_from_nested(env, [[[w, x, 0, 0]]])
+        _reject(env, 'eigendecomposition(1x1 non-Hermitian)', R.eigen.quaternion_eigendecomposition, [one])
+        _reject(env, 'eigenvalues(1x1 non-Hermitian)', R.eigen.quaternion_eigenvalues, [one])
+        _reject(env, 'det(1x1 non-Hermitian, Moore)', lambda a: U.det(a, 'Moore'), [one])
         _reject(env, 'eigendecomposition(non-Hermitian)', R.eigen.quaternion_eigendecomposition, [_nonherm(env, 2, 'a')])
         _reject(env, 'tridiagonalize(non-Hermitian)', R.tridiagonalize.tridiagonalize, [_nonherm(env, 2, 'b')])
         _reject(env, 'eigenvectors(non-Hermitian)', R.eigen.quaternion_eigenvectors, [_nonherm(env, 2, 'c')])
